@@ -4,6 +4,7 @@
 package main
 
 import (
+	"time"
 	"bufio"
 	"encoding/base64"
 	"encoding/json"
@@ -411,6 +412,7 @@ func main() {
 	shard := flag.String("shard", "0/1", "i/n")
 	from := flag.Int("from", 0, "skip sessions with index < from")
 	_ = flag.Duration("quiet", 0, "unused")
+	ctmo := flag.Duration("calltimeout", 20*time.Second, "per-session watchdog")
 	_ = flag.Int64("seed", 1, "unused")
 	flag.Parse()
 	var si, sn int
@@ -449,10 +451,22 @@ func main() {
 			}
 			s.Text = string(b)
 		}
-		if s.Kind == "compile" {
-			evs = runCompile(&s)
-		} else {
-			evs = runRuleSet(&s)
+		// every entry point must return: a session that does not come back within the budget is recorded as such
+		// (the runner re-runs it alone with ten times the budget before it counts)
+		donec := make(chan []Event, 1)
+		go func() {
+			if s.Kind == "compile" {
+				donec <- runCompile(&s)
+			} else {
+				donec <- runRuleSet(&s)
+			}
+		}()
+		hung := false
+		select {
+		case evs = <-donec:
+		case <-time.After(*ctmo):
+			evs = []Event{{"ev": "session", "id": s.ID}, {"ev": "timeout"}}
+			hung = true
 		}
 		var sb strings.Builder
 		for _, e := range evs {
@@ -462,5 +476,8 @@ func main() {
 		}
 		of.WriteString(sb.String())
 		fmt.Fprintf(jf, "done %d\n", i)
+		if hung {
+			os.Exit(3) // a goroutine is stuck: the runner restarts behind this session
+		}
 	}
 }
